@@ -106,3 +106,33 @@ func VC11_LegacySequence() {
 	vsym.AssertBytesEq(ops[3].buf, append([]byte{byte(u), byte(u >> 8), byte(u >> 16), byte(u >> 24)}, v2...), "second buffer is its attributes followed by its value")
 	vsym.Reach("end")
 }
+
+// VC11_LegacyNamed: the name-based package-level wrappers choose the vendor GUID by the variable
+// name: the image security databases db, dbx, dbt, dbr live under the image-security GUID, every
+// other variable (PK, KEK, the *Default copies, boot variables) under the global GUID.
+func VC11_LegacyNamed() {
+	names := []string{"PK", "KEK", "db", "dbx", "dbt", "dbr", "dbDefault", "dbxDefault", "dbtDefault", "dbrDefault", "PKDefault", "KEKDefault", "SetupMode", "SecureBoot", "BootOrder", "d", "dbb"}
+	name := names[vsym.Pick("name", len(names))]
+	// EFI_GLOBAL_VARIABLE and EFI_IMAGE_SECURITY_DATABASE_GUID, from the UEFI specification
+	g := util.EFIGUID{Data1: 0x8BE4DF61, Data2: 0x93CA, Data3: 0x11d2, Data4: [8]uint8{0xAA, 0x0D, 0x00, 0xE0, 0x98, 0x03, 0x2B, 0x8C}}
+	if name == "db" || name == "dbx" || name == "dbt" || name == "dbr" {
+		g = util.EFIGUID{Data1: 0xd719b2cb, Data2: 0x3d3a, Data3: 0x4596, Data4: [8]uint8{0xa3, 0xbc, 0xda, 0xd0, 0x0e, 0x67, 0x65, 0x6f}}
+	}
+	wantPath := append([]byte(Efivars+"/"+name+"-"), vGUIDLower(g)...)
+	rec := &vFS{}
+	fs.SetFS(rec)
+	val := vsym.BytesN("value", 3)
+	if WriteEfivars(name, Attributes(vsym.U32("attrs")), val) == nil {
+		for _, o := range rec.trace {
+			if o.op == "OpenFile" {
+				vsym.AssertBytesEq([]byte(o.path), wantPath, "write: the file is <efivars>/<Name>-<vendor GUID of that name>")
+			}
+		}
+	}
+	rec2 := &vFS{exists: true, content: append([]byte{7, 0, 0, 0}, val...)}
+	fs.SetFS(rec2)
+	_, _, rerr := ReadEfivars(name)
+	vsym.Assert(rerr == nil, "legacy read by name succeeds")
+	vsym.AssertBytesEq([]byte(rec2.trace[0].path), wantPath, "read: the file is <efivars>/<Name>-<vendor GUID of that name>")
+	vsym.Reach("end")
+}
